@@ -154,6 +154,9 @@ func (s c05script) build(qid int) *hs.Prog {
 				if (qid+si+oi)%11 == 0 {
 					op.Err.Base = "" // the bare standard-library error
 				}
+				if sev := []string{"", "", "", "WARNING", "NOTICE", "LOG", "INFO", "DEBUG", "FATAL", "PANIC"}[(qid+2*si+3*oi)%10]; sev != "" {
+					op.Err.Wraps = append(op.Err.Wraps, hs.Wrap{K: 's', S: sev}) // a failure is a failure whatever its severity
+				}
 			}
 			h.Ops = append(h.Ops, op)
 		}
